@@ -40,6 +40,16 @@ DONE = {
   'hand-written Gallina model + regenerated reader/constants + Coq theorems + refutation witness + differential check',
   'Known finding F18 (pair at exactly 3.000 A counted as a clash). round(nCommon/nTotal, 6) modelled as exact half-even on the binary64 quotient. '
   'Print Assumptions: closed under the global context.'),
+ 'C09': ('§5.C09',
+  'Zone files: the line format is regenerated from _write_zone; Coq proves that for every one-character chain identifier other than blank and - and '
+  'every integer residue number the written line is read back as exactly (chain, number), and that a whole zone file is read back as exactly the '
+  'in-memory zone (so the three zone sources are interchangeable), and that the writer publishes atomically. Route agreement: on generated pairs '
+  '(incl. equal-sized chains, rank-differing chains, incomplete decoys, negative numbers) all call forms of each measure — {fast, SQL} x {svd, '
+  'quaternion} x {no zone file, written, read back}, and both Fnat routes — are run and compared pairwise; zone files written by the library are '
+  'compared with the model text and read back through both consumers.',
+  'regenerated zone format + Coq round-trip theorems (string lemmas, induction over the zone) + exhaustive call-form comparison on generated pairs',
+  'fast = SQL and svd = quaternion are corollaries of C07 and C06 theorems, decided per run by execution rather than restated as one theorem. '
+  'Known finding F5 (the two L-RMSD routes choose the long chain differently on ambiguous sizes). Print Assumptions: closed under the global context.'),
  'C10': ('§5.C10',
   'Rodrigues matrix, Euler matrices and product order, rotate, translation, the database wrappers and the random axis/angle are regenerated once against a number '
   'dictionary and instantiated at Q (executable) and at R (theorems). Coq proves over the reals: the Rodrigues matrix is a rotation, fixes its axis, is '
